@@ -27,7 +27,7 @@ import (
 // WriteRawMessageContents writes the given message contents to the given writer.
 func WriteRawMessageContents(contents *conformancev1.MessageContents, writer io.Writer) error {
 	var msgBytes []byte
-	switch data := contents.Data.(type) {
+	switch data := contents.GetData().(type) {
 	case nil:
 		// empty, so nothing to write
 		return nil
@@ -41,7 +41,7 @@ func WriteRawMessageContents(contents *conformancev1.MessageContents, writer io.
 		return fmt.Errorf("invalid message contents data type: %T", data)
 	}
 
-	compressor, err := compression.GetCompressor(contents.Compression)
+	compressor, err := compression.GetCompressor(contents.GetCompression())
 	if err != nil {
 		return err
 	}
